@@ -24,6 +24,10 @@ type concWorld struct {
 	tasks       []*Task
 	incarnation int
 	abandon     bool // requests get a client context of their own, which the schedule may cancel
+	twin        *Instance // a second instance that was let onto the same storage directory while the first one serves
+	shared      bool      // two instances have had the storage directory open at once
+	pruning     bool      // later incarnations run with periodic pruning switched on
+	stuck       bool      // the directory no longer opens after that; the run ends there
 }
 
 func newW1(t *testing.T, rc *RunCtx, cfg SchedCfg, plan *FaultPlan) *concWorld {
@@ -41,6 +45,10 @@ func newW1Pop(t *testing.T, rc *RunCtx, cfg SchedCfg, plan *FaultPlan, pop *Popu
 }
 
 func (w *concWorld) close() {
+	w.s.AbortBackground(nil)
+	if w.twin != nil {
+		w.twin.Close()
+	}
 	w.inst.Close()
 	w.s.Close()
 }
